@@ -2,7 +2,7 @@ use super::interfaces::{is_iseq, is_iseqable};
 use parking_lot::ReentrantMutex;
 use pyo3::exceptions::PyTypeError;
 use pyo3::prelude::*;
-use pyo3::sync::PyOnceLock;
+use pyo3::sync::{MutexExt, PyOnceLock};
 use pyo3::types::{PyBool, PyDict, PyIterator, PyTuple, PyType};
 use pyo3::{intern, IntoPyObjectExt, PyTypeInfo};
 use std::cell::RefCell;
@@ -425,6 +425,21 @@ pub struct LazySeq {
     meta: Py<PyAny>,
 }
 
+impl LazySeq {
+    /// Acquire the lock guarding the inner state of this LazySeq.
+    ///
+    /// The lock is held while the generator function runs. Python code may give up
+    /// the GIL at any point, so a second thread may try to acquire the lock while
+    /// holding the GIL; it must detach from the interpreter while it waits or the
+    /// thread holding the lock could never resume and release it.
+    fn acquire<'a>(
+        &'a self,
+        py: Python<'_>,
+    ) -> PyResult<parking_lot::ReentrantMutexGuard<'a, RefCell<LazySeqState>>> {
+        Ok(self.lock.lock_py_attached(py))
+    }
+}
+
 #[pymethods]
 impl LazySeq {
     #[new]
@@ -469,7 +484,7 @@ impl LazySeq {
     // before calling `(seq ...)` on the result, which is cached.
 
     fn _compute_seq(&self, py: Python) -> PyResult<Py<PyAny>> {
-        let mutex = self.lock.lock();
+        let mutex = self.acquire(py)?;
         let state = mutex.borrow();
         match state.deref() {
             LazySeqState::Computing => return Ok(py.None()),
@@ -517,7 +532,7 @@ impl LazySeq {
     }
 
     fn seq(&self, py: Python) -> PyResult<Py<PyAny>> {
-        let mutex = self.lock.lock();
+        let mutex = self.acquire(py)?;
         let state = mutex.borrow();
         if let LazySeqState::Realized(seq) = state.deref() {
             return Ok(seq.as_ref().clone_ref(py));
@@ -613,7 +628,7 @@ impl LazySeq {
 
     #[getter(is_realized)]
     fn is_realized<'py>(&self, py: Python<'py>) -> PyResult<Borrowed<'py, 'py, PyBool>> {
-        let mutex = self.lock.lock();
+        let mutex = self.acquire(py)?;
         let state = mutex.deref().borrow();
         Ok(PyBool::new(py, matches!(*state, LazySeqState::Realized(_))))
     }
